@@ -33,7 +33,7 @@ ASSUMPTIONS = [
 ]
 OUTSIDE = ["torn writes inside one file", "concurrent invocations of the script", "the Groovy semantics of the .nf files (read as a dependency graph)"]
 RULE = "the interruption point (and the partial output set of an interrupted pipeline run) is a solver-chosen value; each path is one interrupted-and-resumed execution compared with the uninterrupted one."
-BUDGET_S = {"quick": 280, "thorough": 1700}
+BUDGET_S = {"quick": 600, "thorough": 3000}
 TASK_QUOTA = 12
 EXCEPTIONS_ARE_VIOLATIONS = True
 
